@@ -253,7 +253,7 @@ def make_on_path(cfgname, via):
 # ------------------------------------------------------------------ two lookups in one process serving the same URI
 def h_two(p):
     cfg = dict(order=[["A", "B"], ["B", "A"], ["A", "B", "A"], ["A", "A", "B", "B"]][p.choose(4, "request_order")],
-               module_directory=["none", "own"][p.choose(2, "module_directory")],
+               module_directory=["none", "own", "shared"][p.choose(3, "module_directory")],
                mtimes=["same", "A-newer", "B-newer"][p.choose(3, "source_mtimes")], age_modules=bool(p.choose(2, "module_files_aged")),
                fresh_lookup_per_request=bool(p.choose(2, "fresh_lookup_per_request")))
     return dict(cfg=cfg)
@@ -414,6 +414,9 @@ sys.exit(1 if bad else 0)
 
 
 def classify(c):
+    i = c.get("input") or {}
+    if (i.get("two_lookups") or {}).get("module_directory") == "shared":
+        return "C09-shared-module-directory"
     return None
 
 
